@@ -6,30 +6,49 @@ import math
 
 # ------------------------------------------------------------------------------------------------ interpolation
 def bracket(q, nodes):
-    """Index j of the greatest node <= q for strictly increasing nodes, or None when q lies below the first node."""
-    j = None
-    for k in range(len(nodes)):
-        if nodes[k] <= q:
-            j = k
+    """Index j of the last node <= q for non-decreasing nodes (binary search; with repeated nodes the last of the equal
+    ones), or None when q lies below the first node."""
+    lo, hi = 0, len(nodes)
+    while lo < hi:                      # invariant: nodes[:lo] <= q < nodes[hi:]
+        mid = (lo + hi) // 2
+        if nodes[mid] <= q:
+            lo = mid + 1
         else:
-            break
-    return j
+            hi = mid
+    return lo - 1 if lo > 0 else None
+
+
+def equal_nodes(j, nodes):
+    """Indices of all nodes equal to nodes[j] (j and the equal ones before it)."""
+    k = j
+    while k > 0 and nodes[k - 1] == nodes[j]:
+        k -= 1
+    return list(range(k, j + 1))
+
+
+def interp_point(q, nodes, col):
+    """Piecewise-linear interpolation of the points (nodes[k], col[k]) at q with the end values held outside the node
+    range. nodes non-decreasing; a repeated node is a jump of the function. Returns (list of acceptable values, local
+    scale): one value, except ON a repeated node where the value of any of the equal nodes is acceptable; the local
+    scale is the largest |value| of the rows that enter the result and their neighbours."""
+    m = len(nodes)
+    if q < nodes[0]:
+        return [col[0]], max(abs(col[0]), abs(col[min(1, m - 1)]))
+    if q > nodes[m - 1]:
+        return [col[m - 1]], max(abs(col[m - 1]), abs(col[max(0, m - 2)]))
+    j = bracket(q, nodes)
+    if q == nodes[j]:
+        eq = equal_nodes(j, nodes)
+        nb = [abs(col[k]) for k in range(max(0, eq[0] - 1), min(m, j + 2))]
+        return [col[k] for k in reversed(eq)], max(nb)
+    x0, x1 = nodes[j], nodes[j + 1]
+    w = (q - x0) / (x1 - x0)
+    return [(1.0 - w) * col[j] + w * col[j + 1]], max(abs(col[j]), abs(col[j + 1]))
 
 
 def interp_clamped(q, nodes, col):
-    """Piecewise-linear interpolation of the points (nodes[k], col[k]) at q; the end values are held outside the node
-    range (end clamping). nodes strictly increasing."""
-    m = len(nodes)
-    if q <= nodes[0]:
-        return col[0]
-    if q >= nodes[m - 1]:
-        return col[m - 1]
-    j = bracket(q, nodes)
-    x0, x1 = nodes[j], nodes[j + 1]
-    if q == x0:
-        return col[j]
-    w = (q - x0) / (x1 - x0)
-    return (1.0 - w) * col[j] + w * col[j + 1]
+    """The value of interp_point (on a repeated node: that of the last of the equal nodes)."""
+    return interp_point(q, nodes, col)[0][0]
 
 
 def interp_table(queries, nodes, table):
@@ -39,21 +58,32 @@ def interp_table(queries, nodes, table):
     return [[interp_clamped(q, nodes, cols[c]) for c in range(ncol)] for q in queries]
 
 
+def interp_table_local(queries, nodes, table):
+    """(values, local scales, alternatives): values / scales as in interp_table; alternatives[i][c] lists the further
+    acceptable values of a query lying ON a repeated node (empty otherwise)."""
+    ncol = len(table[0])
+    cols = [[row[c] for row in table] for c in range(ncol)]
+    vals, scales, alts = [], [], []
+    for q in queries:
+        pts = [interp_point(q, nodes, cols[c]) for c in range(ncol)]
+        vals.append([p[0][0] for p in pts])
+        scales.append([p[1] for p in pts])
+        alts.append([p[0][1:] for p in pts])
+    return vals, scales, alts
+
+
 def query_class(q, nodes):
-    """'below' / 'above' / 'node' / 'inside' relative to the strictly increasing node set."""
+    """'below' / 'above' / 'node' / 'inside' relative to the non-decreasing node set."""
     if q < nodes[0]:
         return 'below'
     if q > nodes[-1]:
         return 'above'
-    for v in nodes:
-        if q == v:
-            return 'node'
-    return 'inside'
+    return 'node' if nodes[bracket(q, nodes)] == q else 'inside'
 
 
 def left_values(queries, nodes, y=None):
-    """Value (index when y is None) at the greatest node not exceeding each query. None for a query below the first
-    node (outside the domain)."""
+    """Value (index when y is None) at the greatest node not exceeding each query (with repeated nodes: at the last of
+    the equal ones). None for a query below the first node (outside the domain)."""
     out = []
     for q in queries:
         j = bracket(q, nodes)
@@ -61,6 +91,16 @@ def left_values(queries, nodes, y=None):
             out.append(None)
         else:
             out.append(j if y is None else y[j])
+    return out
+
+
+def left_candidates(queries, nodes):
+    """For each query the indices of all nodes equal to the greatest node not exceeding it (None below the first node):
+    with a repeated node the statement does not say which of the equal nodes supplies the value."""
+    out = []
+    for q in queries:
+        j = bracket(q, nodes)
+        out.append(None if j is None else equal_nodes(j, nodes))
     return out
 
 
@@ -121,6 +161,11 @@ def step_levels(x, ind):
     pre = x[:ind]
     post = x[ind + 1:]
     return math.fsum(pre) / len(pre), math.fsum(post) / len(post)
+
+
+def step_level_scales(x, ind):
+    """Largest |sample| of each side: the scale a mean of that side can be accurate to."""
+    return max(abs(v) for v in x[:ind]), max(abs(v) for v in x[ind + 1:])
 
 
 def trunc_explains(got, expected, near=1e-9):
